@@ -4,7 +4,7 @@
 (* db is a function  def name |-> set of the symbol names in its `is` list  *)
 (* (names are code point sequences).  All answers are sets of def names.    *)
 (***************************************************************************)
-EXTENDS HsCore
+EXTENDS Zinc
 
 Defined(db) == DOMAIN db
 IsOf(db, d) == IF d \in DOMAIN db THEN db[d] ELSE {}
@@ -58,6 +58,114 @@ DbOf(rows) ==
     LET names == {rows[i][1] : i \in 1..Len(rows)}
         last(n) == CHOOSE i \in 1..Len(rows) : rows[i][1] = n /\ \A j \in (i + 1)..Len(rows) : rows[j][1] # n
     IN [n \in names |-> {rows[last(n)][2][k] : k \in 1..Len(rows[last(n)][2])}]
+
+(***************************************************************************)
+(* Associations, implementation, entity type, indexes and prototypes        *)
+(* (docHaystack/Associations, Defs#children; namespace.rs associations,     *)
+(* find_reciprocal_associations, implementation, protos; reflection.rs      *)
+(* compute_entity_type).  Beyond `is` a def carries other tags; at is a      *)
+(* function  def name |-> [lists, listtags, markers, syms, children, flat]   *)
+(*   lists    set of <<tag, symbol>>: the symbol entries of list-valued tags *)
+(*   listtags set of the tags whose value is a list                          *)
+(*   markers  set of the tags whose value is a marker                        *)
+(*   syms     set of <<tag, symbol>>: symbol-valued tags                     *)
+(*   children sequence of child prototypes (each a tags sequence), or        *)
+(*            <<>> when the def has none; kids tells how children is spelt   *)
+(*            ("none", "list", "str", "other")                               *)
+(***************************************************************************)
+N_(s) == CodePoints(s)
+ListSyms(at, d, tag) == IF d \in DOMAIN at THEN {p[2] : p \in {q \in at[d].lists : q[1] = tag}} ELSE {}
+HasMarkerTag(at, d, tag) == d \in DOMAIN at /\ tag \in at[d].markers
+SymTag(at, d, tag) == IF d \in DOMAIN at THEN {p[2] : p \in {q \in at[d].syms : q[1] = tag}} ELSE {}
+HasTag(at, d, tag) ==
+    d \in DOMAIN at /\ (tag \in at[d].markers \/ tag \in at[d].listtags \/ tag \in at[d].others
+                        \/ \E q \in at[d].syms : q[1] = tag)
+
+\* namespace.rs associations(parent, association): the association must be a def that lists `association`
+\* directly in its `is`; a plain association reads the parent's own list of that name; a computed one
+\* (computedFromReciprocal + reciprocalOf r, r defined) collects every def one of whose r-targets is in the
+\* parent's inheritance
+Associations(db, at, parent, assoc) ==
+    IF assoc \notin DOMAIN db \/ N_("association") \notin IsOf(db, assoc) THEN {}
+    ELSE IF ~HasTag(at, assoc, N_("computedFromReciprocal"))
+         THEN {s \in ListSyms(at, parent, assoc) : s \in DOMAIN db}
+    ELSE LET rs == {r \in SymTag(at, assoc, N_("reciprocalOf")) : r \in DOMAIN db} IN
+         IF rs = {} THEN {}
+         ELSE LET r == CHOOSE x \in rs : TRUE
+                  inh == Inh(db, parent)
+              IN {d \in DOMAIN db : \E t \in ListSyms(at, d, r) : t \in DOMAIN db /\ t \in inh}
+
+\* namespace.rs implementation(def): the parts of the name that are defs and no feature keys, plus every
+\* mandatory transitive supertype of those
+Implementation(db, at, d) ==
+    LET base == {p \in ConjunctDefs(db, d) : ~IsFeature(p)} IN
+    base \cup {s \in UNION {AllSup(db, p) : p \in base} : HasMarkerTag(at, s, N_("mandatory"))}
+
+\* reflection.rs compute_entity_type: among the reflected defs that fit `entity`, one that no other of them
+\* inherits from (the most specific); the empty def when there is none.  Which one of several unrelated most
+\* specific entities is taken follows the order of the dicts and is left open here.
+EntityCandidates(db, tags) ==
+    LET ent == N_("entity")
+        E == IF ent \in DOMAIN db THEN {d \in Reflect(db, tags) : ent \in Inh(db, d)} ELSE {}
+    IN {d \in E : \A o \in E : o = d \/ d \notin Inh(db, o)}
+EntityOk(db, tags, answer) ==
+    LET c == EntityCandidates(db, tags) IN IF c = {} THEN answer = <<>> ELSE answer \in c
+
+\* indexes built by Namespace::make
+FeatureNames(db) ==
+    LET pre(n) == LET i == CHOOSE k \in 1..Len(n) : n[k] = 58 /\ \A j \in 1..(k - 1) : n[j] # 58 IN SubSeq(n, 1, i - 1)
+    IN {pre(d) : d \in {x \in DOMAIN db : IsFeature(x)}}
+TagOnNames(at) == UNION {ListSyms(at, d, N_("tagOn")) : d \in DOMAIN at}
+TagOnDefs(db, at, d) == {s \in ListSyms(at, d, N_("tagOn")) : s \in DOMAIN db}
+
+\* namespace.rs protos(parent): for every tag of the parent that is a def with children, each child prototype
+\* with the parent's non-null tags that fit one of the def's childrenFlatten symbols merged over it.  Children are
+\* either a list of dicts, or text with one prototype per line - the tags of a Zinc dict without the braces; blank
+\* lines, // comments, lines that are no Zinc and empty prototypes are skipped (misc.rs).
+TagVal(tags, n) == LET i == CHOOSE k \in 1..Len(tags) : tags[k][1] = n IN tags[i][2]
+DictOf(tags) == {<<tags[i][1], tags[i][2]>> : i \in 1..Len(tags)}
+Flattened(db, at, d, ptags) ==
+    {<<n, TagVal(ptags, n)>> : n \in {m \in TagNamesOf(ptags) :
+        TagVal(ptags, m).k # "null" /\ \E f \in ListSyms(at, d, N_("childrenFlatten")) : Fits(db, m, f)}}
+IsWs_(c) == c \in {32, 9, 13, 11, 12}
+RECURSIVE TrimL_(_)
+TrimL_(s) == IF s # <<>> /\ IsWs_(s[1]) THEN TrimL_(Tail(s)) ELSE s
+RECURSIVE TrimR_(_)
+TrimR_(s) == IF s # <<>> /\ IsWs_(s[Len(s)]) THEN TrimR_(SubSeq(s, 1, Len(s) - 1)) ELSE s
+Trim_(s) == TrimR_(TrimL_(s))
+\* the child prototypes of def d: [rv |-> is it a read value (numerals) or an abstract value, tags |-> its tags]
+ChildrenOf(at, d) ==
+    IF at[d].kids = "list" THEN {[rv |-> FALSE, tags |-> at[d].children[i]] : i \in 1..Len(at[d].children)}
+    ELSE IF at[d].kids = "str" THEN
+        LET ls == SplitOn(at[d].children, 10, 1, <<>>)
+            good == {i \in 1..Len(ls) : LET t == Trim_(ls[i]) IN t # <<>> /\ ~(Len(t) >= 2 /\ t[1] = 47 /\ t[2] = 47)}
+            parsed(i) == ZincRead(<<123>> \o Trim_(ls[i]) \o <<125>>)
+        IN {[rv |-> TRUE, tags |-> parsed(i).v.tags] :
+               i \in {j \in good : parsed(j).ok /\ parsed(j).v.k = "dict" /\ parsed(j).v.tags # <<>>}}
+    ELSE {}
+ExpectedProtos(db, at, ptags) ==
+    UNION {{[c |-> ch, over |-> Flattened(db, at, d, ptags)] : ch \in ChildrenOf(at, d)}
+           : d \in {n \in TagNamesOf(ptags) : n \in DOMAIN at}}
+ProtoMatches(ans, e) ==
+    LET A == DictOf(ans)
+        C == DictOf(e.c.tags)
+        keysO == {q[1] : q \in e.over}
+    IN /\ {q[1] : q \in A} = keysO \cup {q[1] : q \in C}
+       /\ \A q \in e.over : q \in A
+       /\ \A q \in C : q[1] \in keysO \/ (IF e.c.rv THEN Denotes(q[2], TagVal(ans, q[1])) ELSE q \in A)
+ProtosOk(db, at, ptags, answers) ==
+    LET E == ExpectedProtos(db, at, ptags) IN
+    /\ \A e \in E : \E i \in 1..Len(answers) : ProtoMatches(answers[i], e)
+    /\ \A i \in 1..Len(answers) : \E e \in E : ProtoMatches(answers[i], e)
+
+\* build at from rows <<name, lists, listtags, markers, syms, others, kids, children>> (later row wins)
+AtOf(rows) ==
+    LET names == {rows[i][1] : i \in 1..Len(rows)}
+        last(n) == CHOOSE i \in 1..Len(rows) : rows[i][1] = n /\ \A j \in (i + 1)..Len(rows) : rows[j][1] # n
+        S(q) == {q[k] : k \in 1..Len(q)}
+    IN [n \in names |-> LET r == rows[last(n)] IN
+            [lists |-> S(r[2]), listtags |-> S(r[3]), markers |-> S(r[4]), syms |-> S(r[5]), others |-> S(r[6]),
+             kids |-> r[7], children |-> r[8]]]
 
 Acyclic(db) == \A d \in DOMAIN db : d \notin AllSup(db, d)
 =============================================================================
